@@ -126,5 +126,24 @@ check("C01",
                 "deviations (address-order personalities), against a reference model",
       engine="explore", design="3/C01", deadline={"quick": 150, "thorough": 1500})
 
+check("C04",
+      passes=[dict(name="C04", src=["harness/C04.cpp"] + ENV, variant="fast", shards={"quick": 16, "thorough": 16})],
+      rule="every history of name/atom requests (identifier and operator through both overloads, suffix, conversion, ctor, dtor, "
+           "guide name, template-id, logogram, symbol, label, this, literal through 3 entry points, linkage through both overloads, "
+           "calling convention) over the spellings {a, b, \"\", int, default, this, C, C++, Java, +} and types {int, char, C, void}, "
+           "operands also taken from earlier results: full alphabet to depth 2 (quick) / 3 (thorough), compact alphabet to depth 3 / 4, "
+           "under ascending, descending, alternating address orders; key->node model per step (label(id) == symbol(id, void), "
+           "this(T) == symbol(identifier this, T), label(default) == default_value(), linkage C/C++ == the constants); in every final "
+           "state: one Identifier node per spelling among all reachable ones (incl. names of the 26 built-ins and 5 constants), and "
+           "operator== on logogram/linkage/convention values <=> equal spelling; all 56 reserved words through both get_identifier "
+           "overloads; long histories of 1024 (4096) keys per constructor x 3 insertion orders x 4 address modes.",
+      text="All request histories up to the bound on the real name/expression factories under controlled address orders, "
+           "against a key->node reference model plus two whole-state invariants.",
+      note="Identity is compared on interface pointers of the same interface type. The model identifies label(id) with "
+           "symbol(id, void) and this(T) with symbol('this', T) as the interface documents.",
+      technique="exhaustive enumeration of operation histories up to a depth bound on the implementation, with environment "
+                "deviations (address-order personalities), against a reference model",
+      engine="explore", design="3/C04", deadline={"quick": 150, "thorough": 1500})
+
 # Properties not claimed (with the reason that goes to MANIFEST.not_applicable).
 NOT_CLAIMED = {}
